@@ -45,3 +45,15 @@ func VerifEnvironment() (vars [][3]string, platform map[string]string) {
 	}
 	return vars, platform
 }
+
+// VerifMarkerOps returns markerOpsByLength as integers and the String() text
+// of the marker operators 0..n-1.
+func VerifMarkerOps(n int) (byLength []int, texts []string) {
+	for _, op := range markerOpsByLength {
+		byLength = append(byLength, int(op))
+	}
+	for v := 0; v < n; v++ {
+		texts = append(texts, markerOp(v).String())
+	}
+	return byLength, texts
+}
